@@ -503,8 +503,14 @@ coap_cancel_observe_lkd(coap_session_t *session, coap_binary_t *token,
                                                   lg_crcv->o_blk_size),
                              buf);
         }
-        if (coap_get_data(&lg_crcv->pdu, &size, &data))
-          coap_add_data_large_request_lkd(session, pdu, size, data, NULL, NULL);
+        if (coap_get_data(&lg_crcv->pdu, &size, &data)) {
+          if (!coap_add_data_large_request_lkd(session, pdu, size, data,
+                                               NULL, NULL)) {
+            /* Not the request that was registered if its body is missing */
+            coap_delete_pdu(pdu);
+            return 0;
+          }
+        }
 
         /*
          * Need to fix lg_xmit stateless token as using tokens from
